@@ -322,3 +322,143 @@ class FullTU(object):
 
 def hexarg(data):
     return data.hex() if data else '-'
+
+
+# --------------------------------------------------------------------------------- raw codec driver
+RAW_DRIVER_HEAD = r'''
+#include "m.pp.hpp"
+#include <cstddef>
+#include <cstdio>
+#include <cstdlib>
+#include <cstring>
+#include <iostream>
+#include <string>
+#include <vector>
+
+static std::string hex(const uint8_t* p, size_t n) {
+    static const char* d = "0123456789abcdef";
+    std::string s; s.reserve(2 * n);
+    for (size_t i = 0; i < n; ++i) { s += d[p[i] >> 4]; s += d[p[i] & 15]; }
+    return s.empty() ? std::string("-") : s;
+}
+static std::vector<uint8_t> unhex(const std::string& s) {
+    std::vector<uint8_t> v;
+    if (s == "-") return v;
+    for (size_t i = 0; i + 1 < s.size(); i += 2) v.push_back(uint8_t(strtoul(s.substr(i, 2).c_str(), 0, 16)));
+    return v;
+}
+template <class T> static void do_swap(const std::vector<uint8_t>& in) {
+    // 8-aligned exact-size heap block: ASan red zones on both sides act as canaries
+    void* mem = 0;
+    if (posix_memalign(&mem, 8, in.size() ? in.size() : 1)) { std::cout << "R nomem" << std::endl; return; }
+    uint8_t* buf = static_cast<uint8_t*>(mem);
+    if (!in.empty()) memcpy(buf, in.data(), in.size());
+    T* end = prophy::swap(reinterpret_cast<T*>(buf));
+    long off = reinterpret_cast<uint8_t*>(end) - buf;
+    std::cout << "R ok=1 end=" << off << " buf=" << hex(buf, in.size()) << std::endl;
+    free(mem);
+}
+'''
+
+
+def raw_layout_facts(schema, rw):
+    """-> list of (label, c++ expression, expected value) for every struct, part and union."""
+    facts = []
+    for c in schema.composites():
+        size, align, stiff = rw.layout(c.name)
+        facts.append(('%s:alignof' % c.name, '__alignof__(%s)' % c.name, align))
+        if isinstance(c, Union):
+            facts.append(('%s:sizeof' % c.name, 'sizeof(%s)' % c.name, size))
+            facts.append(('%s.discriminator' % c.name, 'offsetof(%s, discriminator)' % c.name, 0))
+            for a in c.arms:
+                facts.append(('%s.%s' % (c.name, a.name), 'offsetof(%s, %s)' % (c.name, a.name), align))
+            continue
+        if stiff == ir.FIXED:
+            facts.append(('%s:sizeof' % c.name, 'sizeof(%s)' % c.name, size))
+        fields = rw.static_offsets(c)
+        nblocks = max(b for _, b, _ in fields) + 1 if fields else 1
+        # a trailing dynamic field opens no further part
+        for f, block, off in fields:
+            m = f.member
+            holder = c.name if block == 0 else '%s::part%d' % (c.name, block + 1)
+            if f.role == 'value':
+                facts.append(('%s.%s' % (holder, m.name), 'offsetof(%s, %s)' % (holder, m.name), off))
+            elif f.role == 'opt':
+                facts.append(('%s.has_%s' % (holder, m.name), 'offsetof(%s, has_%s)' % (holder, m.name), off))
+                facts.append(('%s.%s' % (holder, m.name), 'offsetof(%s, %s)' % (holder, m.name), off + f.align))
+            elif f.role == 'counter':
+                facts.append(('%s.num_of_%s' % (holder, m.name), 'offsetof(%s, num_of_%s)' % (holder, m.name), off))
+            elif f.role == 'elems':
+                facts.append(('%s.%s[0]' % (holder, m.name), 'offsetof(%s, %s)' % (holder, m.name), off))
+        for b in range(1, nblocks):
+            first = next(f for f, blk, _ in fields if blk == b)
+            facts.append(('%s::part%d:alignof' % (c.name, b + 1), '__alignof__(%s::part%d)' % (c.name, b + 1),
+                          first.block_align))
+            facts.append(('%s._%d' % (c.name, b + 1), 'sizeof(((%s*)0)->_%d) > 0' % (c.name, b + 1), 1))
+    return facts
+
+
+def gen_raw_driver(schema, rw):
+    facts = raw_layout_facts(schema, rw)
+    src = [RAW_DRIVER_HEAD, 'static void layout() {']
+    for i, (label, expr, want) in enumerate(facts):
+        src.append('    std::cout << "L %d " << (long)(%s) << std::endl;' % (i, expr))
+    src.append('}')
+    src.append('int main() {\n    std::string line;\n    while (std::getline(std::cin, line)) {')
+    src.append('        if (line == "layout") { layout(); std::cout << "R done" << std::endl; continue; }')
+    src.append('        char op[16], ty[128]; static char hx[1 << 20];')
+    src.append('        if (sscanf(line.c_str(), "%15s %127s %1048575s", op, ty, hx) < 3) '
+               '{ std::cout << "R bad-command" << std::endl; continue; }')
+    src.append('        std::string sty(ty); std::vector<uint8_t> in = unhex(hx);')
+    for c in schema.composites():
+        src.append('        if (sty == "%s") { do_swap<%s>(in); continue; }' % (c.name, c.name))
+    src.append('        std::cout << "R unknown-type" << std::endl;')
+    src.append('    }\n    return 0;\n}')
+    return '\n'.join(src), facts
+
+
+class RawTU(object):
+    """schema -> prophyc --cpp_out -> layout/swap driver -> executable."""
+
+    def __init__(self, schema, workdir=None, sanitize=True):
+        from .refwire import RefWire
+        self.schema = schema
+        self.dir = workdir or pyh.fresh_dir('raw')
+        self.text = schema.to_prophy()
+        src = os.path.join(self.dir, 'm.prophy')
+        with open(src, 'w') as f:
+            f.write(self.text)
+        self.nodes = pyh.run_prophyc([src, '--cpp_out', self.dir])['m']
+        self.rw = RefWire(schema)
+        drv, self.facts = gen_raw_driver(schema, self.rw)
+        with open(os.path.join(self.dir, 'driver.cpp'), 'w') as f:
+            f.write(drv)
+        self.exe = os.path.join(self.dir, 'drv')
+        compile_cxx(['driver.cpp', 'm.pp.cpp'], self.exe, self.dir, sanitize=sanitize)
+
+    def layout(self):
+        """-> list of (label, expected, observed)"""
+        env = dict(os.environ)
+        env.update(RUN_ENV)
+        p = subprocess.run([self.exe], input=b'layout\n', stdout=subprocess.PIPE, stderr=subprocess.PIPE, timeout=60,
+                           env=env)
+        got = {}
+        for l in p.stdout.decode().splitlines():
+            if l.startswith('L '):
+                _, i, v = l.split()
+                got[int(i)] = int(v)
+        return [(label, want, got.get(i)) for i, (label, expr, want) in enumerate(self.facts)]
+
+    def swap(self, items, timeout=120):
+        """items: list of (tname, big-endian bytes) -> result dicts {'end': int, 'buf': bytes} or {'crash':..}"""
+        cmds = ['swap %s %s' % (t, hexarg(d)) for t, d in items]
+        res = run_driver(self.exe, cmds, timeout)
+        for r in res:
+            if 'buf' in r:
+                r['buf'] = b'' if r['buf'] == '-' else bytes.fromhex(r['buf'])
+            if 'end' in r:
+                r['end'] = int(r['end'])
+        return res
+
+    def cleanup(self):
+        shutil.rmtree(self.dir, ignore_errors=True)
